@@ -186,6 +186,10 @@ structure St where
   specViol : Nat := 0
   modelled : Nat := 0
   cov : List (String × Nat) := []
+  /-- observations (op text ↦ implementation answer) made since the last state-changing operation -/
+  snap : List (String × String) := []
+  /-- a restart happened since the snapshot was started -/
+  snapRestart : Bool := false
 
 def bump (cov : List (String × Nat)) (k : String) : List (String × Nat) :=
   match cov.find? (fun e => e.1 == k) with
@@ -249,6 +253,24 @@ def specCheck (st : St) (op : Op) (impl : String) : Option (String × String) :=
         if exp == impl then none else some ("store-offset", exp)
   | _ => none
 
+/-- Identity operations of the specification (flush, background save, cache eviction, restart) must not
+change any observation: the implementation's own earlier answer to the same question is the oracle.
+Returns the new snapshot state and a violation class if an observation changed. -/
+def snapCheck (st : St) (toks : List String) (opS impl : String) : List (String × String) × Bool × Option String :=
+  let op := toks.headD ""
+  let isObs := (op == "poll" && toks.getLast? == some "0") || op == "get-offset"
+  let isIdentity := op == "flush" || op == "save" || op == "restart" || op == "evict" || op == "clock" ||
+    op == "topic" || op == "stats" || op == "cacheinfo" || op == "ls" || op == "scan" || op == "ping" ||
+    op == "streams" || op == "stream" || op == "topics" || op == "groups" || op == "group" || op == "me"
+  if isObs then
+    match st.snap.find? (fun e => e.1 == opS) with
+    | some e =>
+      if e.2 == impl then (st.snap, st.snapRestart, none)
+      else (st.snap, st.snapRestart, some (if st.snapRestart then "obs-changed-restart" else "obs-changed"))
+    | none => ((opS, impl) :: st.snap, st.snapRestart, none)
+  else if isIdentity then (st.snap, st.snapRestart || op == "restart", none)
+  else ([], false, none)
+
 def stepLine (st : St) (raw : String) : St × List String :=
   let st := { st with line := st.line + 1 }
   let (opS, implS) := match raw.splitOn "\t" with
@@ -257,8 +279,14 @@ def stepLine (st : St) (raw : String) : St × List String :=
     | a :: rest => (a, ("\t".intercalate rest).trimAscii.toString)
     | [] => ("", "")
   let toks := (opS.trimAscii.toString.splitOn " ").filter (· ≠ "")
+  let (snap', snapR', snapV) := snapCheck st toks opS.trimAscii.toString implS
+  let st := { st with snap := snap', snapRestart := snapR' }
+  let msgs0 := match snapV with
+    | none => []
+    | some cls => [s!"SPEC-VIOL {st.line} class={cls} op={opS.trimAscii.toString} expected=(its own earlier answer) impl={implS}"]
+  let st := { st with specViol := st.specViol + msgs0.length }
   match parseOp st.enc toks (implS.splitOn " ") with
-  | none => (st, [])                       -- not modelled (connection handling, ls, scan, …)
+  | none => (st, msgs0)                    -- not modelled (connection handling, ls, scan, …)
   | some op =>
     let (sys', out, effs) := step st.sys op
     let mtxt := showOut st.enc out
@@ -283,7 +311,7 @@ def stepLine (st : St) (raw : String) : St × List String :=
     ({ st with sys := sys', spec := applyEffects st.sys.cfg st.spec effs, cov := cov
                corr := st.corr + msgs1.length, specViol := st.specViol + msgs2.length
                modelled := st.modelled + 1 },
-      msgs1 ++ msgs2)
+      msgs0 ++ msgs1 ++ msgs2)
 
 def parseCfg (line : String) : St :=
   let kv := kvs (line.splitOn " ")
